@@ -228,7 +228,15 @@ def run(ctx):
                     if atom not in fam:
                         continue
                     lits = [l for t_, p_ in conds for l in common.split_literals(t_, p_)]
-                    in_replay = any('in_playback_mode' in norm(t_) and p_ for t_, p_ in lits)
+                    def replay_literal(t_, p_):
+                        if 'in_playback_mode' in norm(t_):
+                            return p_
+                        # the property's own expression written in place: `self.<playback field> is not None`
+                        if isinstance(t_, ast.Compare) and len(t_.ops) == 1 and _self_attr(t_.left) == roles.playback and \
+                                isinstance(t_.comparators[0], ast.Constant) and t_.comparators[0].value is None:
+                            return p_ if isinstance(t_.ops[0], ast.IsNot) else (not p_ if isinstance(t_.ops[0], ast.Is) else False)
+                        return False
+                    in_replay = any(replay_literal(t_, p_) for t_, p_ in lits)
                     if not in_replay:
                         raisers.append((f, r_, nm))
     cc.instance('while recording the recorder raises no exception of the pass-through (framework) family', roles.cls.name, not raisers)
